@@ -277,6 +277,9 @@ def C03(ctx):
 def C04(ctx):
     q = ctx.quick
     pipeline_mc(ctx, q)
+    # unbounded integers: triple comparison = total-nanosecond comparison; AddSec normalises; the inclusive window on
+    # triples is the inclusive window on nanoseconds (Apalache / SMT)
+    apalache(ctx, "CivilLemma", "Lemmas")
     fn_campaign(ctx, [("ts_field", 0), ("ts_seps", 0)], [])     # the textual forms themselves (hour 24, offsets, ...)
     req_campaign(ctx, [("window", 0 if q else 1)])
     return dict(
